@@ -102,6 +102,7 @@ func (c *DiffCommand) execute(tow io.Writer) (err error) {
 
 func (c *DiffCommand) diffOneFile(srcRelPath, destRelPath string, tow io.Writer) (err error) {
 	now := whispertool.TimestampFromStdTime(time.Now())
+	now = verifNow(now)
 	var until whispertool.Timestamp
 	if c.Until == 0 {
 		until = now
